@@ -58,7 +58,7 @@ def zoom_rbs(array, newSize, order=3):
     coordsY = numpy.linspace(0, array.shape[1]-1, ySize)
 
     #If array is complex must do 2 interpolations
-    if array.dtype==numpy.complex64 or array.dtype==numpy.complex128:
+    if numpy.iscomplexobj(array):  # any complex type (complex64/128, byte-swapped, extended precision)
         realInterpObj = RectBivariateSpline(   
                 numpy.arange(array.shape[0]), numpy.arange(array.shape[1]), 
                 array.real, kx=order, ky=order)
